@@ -319,7 +319,7 @@ func PanicSite(skip int) string {
 		fn := f.Function
 		if strings.Contains(fn, "privacybydesign/gabi") &&
 			!strings.Contains(f.File, "zz_vf_") && !strings.Contains(f.File, "/verif/") && !strings.Contains(f.File, "internal/vf") &&
-			!strings.Contains(fn, "internal/vfh") {
+			!strings.Contains(fn, "internal/vfh") && !strings.Contains(fn, "gabi/big.") {
 			return strings.TrimPrefix(fn, "github.com/privacybydesign/gabi")
 		}
 		if first == "" && !strings.HasPrefix(fn, "runtime.") && fn != "" {
